@@ -15,7 +15,7 @@ RULE = ('vespr_layout is wrapped with an icontract postcondition evaluated on EV
         '(relative 1e-9). Workload: every connected graph-atlas graph with 2-7 nodes (quick: every 4th, thorough: all 995), '
         'chains, stars, rings, fused rings, grids and random trees up to 60 nodes, resolver outputs with hydrogens and with '
         'cis/trans annotations (exercises the subgraph rotation); bond lengths {0.3, 1, 1.5, 7} and, less often, {0.002, 40, 250}; node relabelings (shuffled '
-        'integers, sparse integers, strings); NumPy global RNG reseeded per call (spring initialisation). distinct = (graph '
+        'integers, sparse integers, strings); a sixth of the graphs laid out a second time after an in-place edit with unchanged atom and bond counts; NumPy global RNG reseeded per call (spring initialisation). distinct = (graph '
         'class, size, relabeling, bond length); non-trivial = at least 3 nodes.')
 ASSUMPTIONS = ['coincidence threshold 1e-6 x bond length (smallest bonded distance seen in probes: 0.46 x)',
                'graphs are connected and have at least one bond (premise of the property)']
@@ -274,6 +274,38 @@ def run(case):
     for clause, msg in RECORDS:
         viol.append(V(clause, f'{txt} bond={case["bond"]}: {msg}'))
     del RECORDS[:]
+    edited = 0
+    if case['sub'] % 6 == 2 and not viol and len(g) >= 4 and not nx.get_node_attributes(g, 'ez_isomer'):
+        # (cis/trans annotations name atoms by key: such a graph cannot be edited without rewriting them, so it is left alone)
+        # history on ONE graph object: laid out, then edited in place with the same number of atoms and bonds (a bond moved,
+        # or one atom renamed), then laid out again with the same settings; the second layout is judged like any other
+        leaves = [n for n in g if g.degree(n) == 1]
+        how = None
+        if leaves and (case['sub'] // 6) % 2 == 0:
+            l_ = leaves[0]
+            p_ = next(iter(g[l_]))
+            others = [q for q in g if q not in (l_, p_)]
+            if others:
+                q_ = others[(case['sub'] // 12) % len(others)]
+                attrs = dict(g.edges[l_, p_])
+                g.remove_edge(l_, p_)
+                g.add_edge(l_, q_, **attrs)
+                how = f'bond {l_}-{p_} moved to {l_}-{q_}'
+        if how is None:
+            old = list(g.nodes)[(case['sub'] // 12) % len(g)]
+            nx.relabel_nodes(g, {old: ('renamed', str(old))}, copy=False)
+            how = f'node {old!r} renamed in place'
+        try:
+            if align is None:
+                vespr_layout(g, default_bond=case['bond'])
+            else:
+                vespr_layout(g, default_bond=case['bond'], align_with=align)
+            edited = 1
+        except Exception as err:
+            viol.append(V('c19.exception.' + type(err).__name__, f'{txt} bond={case["bond"]}, laid out a second time after {how}: vespr_layout raised {type(err).__name__}: {err}'))
+        for clause, msg in RECORDS:
+            viol.append(V(clause, f'{txt} bond={case["bond"]}, laid out a second time after {how}: {msg}'))
+        del RECORDS[:]
     contracts.clear()
-    return {'violations': viol, 'counters': {'postcondition_evaluations': COUNT[0] - before}, 'nontrivial': len(g) >= 3,
+    return {'violations': viol, 'counters': {'postcondition_evaluations': COUNT[0] - before, 'second_layout_after_in_place_edit': edited}, 'nontrivial': len(g) >= 3,
             'cls': (case['kind'], case['gid'], case['how'], case['bond']), 'sample': txt}
